@@ -472,6 +472,9 @@ struct Model {
     limit_cut: bool,
     deadline_hot: bool,
     thread_variant: bool,
+    /// injected delay counters at the start of the current read
+    stall0: u64,
+    late0: u64,
 }
 
 fn redir(cfg: StreamCfg, label: &str) -> Redirection {
@@ -702,6 +705,13 @@ fn judge_read(m: &mut Model, rc: &ReadCtx, begin_seq: u64, res: &ReadOut, idx: u
         if after > 16 {
             violate("deadline_overrun", format!("deadline_overrun/limit_class={}", limit_class(tl)), format!("{}: {} further parent calls after the deadline {} passed (returned at {}, {} ns late)", ctx, after, d, now, now.saturating_sub(d)));
         }
+        // ... and no single call may sit far beyond the deadline either: lateness beyond what the
+        // simulator itself injected (stalls, late timers, call costs) plus the 1 ms granularity
+        let injected = (s.stalled_ns - m.stall0) + (s.late_ns - m.late0) + 24 * s.cost_ns;
+        let late = now.saturating_sub(d);
+        if late > injected + 3_000_000 {
+            violate("deadline_overrun", format!("deadline_overrun/blocked/limit_class={}", limit_class(tl)), format!("{}: returned {} ns after the deadline {} although only {} ns of delay were injected (a call blocked past the limit)", ctx, late, d, injected));
+        }
     }
     // unexpected error kinds in a fault-free batch are reported by the caller
     is_ok && empty
@@ -725,6 +735,8 @@ fn drive_reads<C: CommLike>(m: &mut Model, mut comm: C, reads: &[ReadStep], faul
     let mut done = false;
     let mut do_read = |m: &mut Model, comm: &mut C, cur: &ReadCtx, idx: usize| -> (bool, bool) {
         let b = seq();
+        m.stall0 = sim().stalled_ns;
+        m.late0 = sim().late_ns;
         let r = lib("Communicator::read", || comm.read_n());
         match r {
             Err(p) => {
@@ -859,6 +871,8 @@ pub fn run(plan: &Plan, c: &CommPlan) -> FamOut {
         limit_cut: false,
         deadline_hot: false,
         thread_variant: c.thread_variant,
+        stall0: 0,
+        late0: 0,
     };
     if c.thread_variant {
         return run_threaded(plan, c, m, input, faulty);
